@@ -27,6 +27,7 @@ from . import simkernel as sk
 
 VERIF = os.path.dirname(os.path.dirname(os.path.abspath(__file__)))
 NPROC = int(os.environ.get("VERIF_NPROC", "16"))
+OUT = os.environ.get("VERIF_OUT") or VERIF      # evidence/ and replays/ go here (mutation runs use a scratch dir)
 
 
 def canon(obj):
@@ -357,7 +358,7 @@ def run_check(check, tier, seed, wall_budget=None):
     known = load_known(cid)
     violations = []
     known_hit = {}
-    os.makedirs(os.path.join(VERIF, "replays", cid), exist_ok=True)
+    os.makedirs(os.path.join(OUT, "replays", cid), exist_ok=True)
     for b in sorted(tot["buckets"]):
         size, params, v, origin = tot["buckets"][b][0]
         e = match_known(known, b)
@@ -380,7 +381,7 @@ def run_check(check, tier, seed, wall_budget=None):
         except Exception:
             small = params
         name = "%s.json" % hashlib.sha1(b.encode()).hexdigest()[:12]
-        path = os.path.join(VERIF, "replays", cid, name)
+        path = os.path.join(OUT, "replays", cid, name)
         with open(path, "w") as f:
             json.dump({"property": cid, "tier": tier, "seed": seed, "bucket": b, "violation": v,
                        "origin": origin, "params": small, "tree": tree_id(), "shrink_evals": evals},
@@ -423,8 +424,8 @@ def run_check(check, tier, seed, wall_budget=None):
         "property_id": cid, "tier": tier, "seed": int(seed), "level": check.LEVEL, "coverage": cov,
         "assumptions": list(check.ASSUMPTIONS), "wall_s": round(wall, 2), "violations": len(violations),
     }
-    os.makedirs(os.path.join(VERIF, "evidence"), exist_ok=True)
-    with open(os.path.join(VERIF, "evidence", cid + ".json"), "w") as f:
+    os.makedirs(os.path.join(OUT, "evidence"), exist_ok=True)
+    with open(os.path.join(OUT, "evidence", cid + ".json"), "w") as f:
         json.dump(ev, f, indent=1, sort_keys=True, default=_default)
     print("%s %s seed=%s: %d cases (%d sub-runs), %d distinct non-trivial, %d violation bucket(s), %d known, %.1fs"
           % (cid, tier, seed, tot["evaluations"], tot["subruns"], len(tot["nontrivial"]), len(violations),
